@@ -1,4 +1,5 @@
 import FlowCalModel.Excel
+import FlowCalModel.Generated
 /-!
 # C15 — A well-formed workbook always yields a complete, faithful output workbook (schema level)
 -/
@@ -52,5 +53,17 @@ example : samplesStatsColumns ["FL1"] = ["Analysis Notes", "Number of Events", "
     "FL1 Mean", "FL1 Geom. Mean", "FL1 Median", "FL1 Mode", "FL1 Std", "FL1 CV", "FL1 Geom. Std", "FL1 Geom. CV", "FL1 IQR", "FL1 RCV"] := by decide
 example : readFilter [(some "a", 1), (none, 2), (some "b", 3)] = .ok [("a", 1), ("b", 3)] := by decide
 example : readFilter [(some "a", 1), (none, 2), (some "a", 3)] = .error .ValueError := by decide
+
+/-- the sheets of the output workbook are the ones `run()` appends in the source now (regenerated on every run):
+the conditional ones exactly when a histogram sheet is requested, all in source order -/
+theorem sheets_match_source (hist : Bool) :
+    outputSheets hist = ((Generated.outputSheetSpec.filter (fun p => !p.2 || hist)).map (·.1)) := by
+  cases hist <;> rfl
+
+/-- the result columns are the ones `add_samples_stats` creates in the source now: the table-level columns, then for every
+reported channel the per-channel suffixes, all in order of first assignment -/
+theorem stats_columns_match_source (channels : List String) :
+    samplesStatsColumns channels =
+      Generated.statsHeadColumns ++ channels.flatMap (fun c => Generated.statsPerChannelSuffixes.map (c ++ ·)) := rfl
 
 end FlowCal.C15
